@@ -9,7 +9,7 @@ TWINS = ['\\x a \\y a \\z', '{ a \\y a }a \\y a ', '\\a{x} b \\a{x} c', '\\a{x}\
          '\\begin{itemize}\\item[\\a{x}] \\a{x}\\end{itemize}', '\\p{\\q{\\r}}\\p{\\q{\\r}}', '{\\a\\a}', '$\\a{x}$ {\\a{x}} \\a{x}',
          '\\begin{e}[\\o{1}]{r} t \\c{ \\d{2} } $m \\f{3}$ {g \\h{4}}\\end{e} z', '\\begin{itemize}\\item i \\j{5} \\item k\\end{itemize}',
          '\\textbf{Hello} \\begin{v}q\\end{v} $x$', 'x \\a x \\b x', '\\begin{e}\\begin{e}\\a{x}\\end{e}\\a{x}\\end{e}']
-MATS = (('X',), (1,), (5, 'Y'), ('p q', 2, 3))
+MATS = (('X',), (1,), (5, 'Y'), ('p q', 2, 3), ('x', ' ', 'y'), ('\n',))
 
 
 def start_docs(chk, n):
